@@ -302,4 +302,188 @@ theorem collapse_local_owned (g : Grid) (owned : List Bool) (n0 n1 : Nat)
   · exact hr0 c (mem_having.mpr ⟨hc, hn⟩) v hv
   · exact hr1 c (mem_having.mpr ⟨hc, hn⟩) v hv
 
+/-! ### the driver applies only guarded collapses; a refusal leaves the cells untouched -/
+
+section Driver
+variable {α : Type} [Scalar α] [Inhabited α]
+
+/-- **judge_collapse_guards**: the verdict `collapse` of the guard chain of `ref_collapse_to_remove_node1` means
+    every guard answered `REF_SUCCESS` / allowed, in particular the manifold, quality and locality guards -/
+theorem judge_collapse_guards (g : Grid) (nd : Nodes α) (p : Params α) (n0 n1 : Nat)
+    (h : judge g nd p n0 n1 = .collapse) :
+    collapseEdgeMixed g n0 n1 = true ∧ collapseEdgeGeometry g false false n0 n1 = (.ok, true) ∧
+    collapseEdgeManifold g n0 n1 = (.ok, true) ∧ collapseEdgeRatio g nd p n0 n1 = true ∧
+    (p.twod = true → collapseEdgeTwodOrientation g nd n0 n1 = (.ok, true)) ∧
+    collapseEdgeTriQuality g nd p n0 n1 = (.ok, true) ∧ collapseEdgeTetQuality g nd p n0 n1 = (.ok, true) ∧
+    collapseEdgeLocalCell g nd.owned n0 n1 = true := by
+  unfold judge at h
+  split at h
+  · cases h
+  · rename_i hmixed
+    split at h
+    · cases h
+    · rename_i hgeom
+      split at h
+      · cases h
+      · rename_i hman
+        split at h
+        · cases h
+        · split at h
+          · cases h
+          · rename_i hratio
+            split at h
+            · cases h
+            · split at h
+              · cases h
+              · split at h
+                · cases h
+                · split at h
+                  · cases h
+                  · rename_i htwod
+                    split at h
+                    · cases h
+                    · rename_i htri
+                      split at h
+                      · rename_i allowed htet
+                        split at h
+                        · cases h
+                        · rename_i hloc
+                          split at h
+                          · cases h
+                          · rename_i hall
+                            refine ⟨by simpa using hmixed, hgeom, hman, by simpa using hratio, ?_, htri, ?_,
+                              by simpa using hloc⟩
+                            · intro ht; simpa [ht] using htwod
+                            · have : allowed = true := by simpa using hall
+                              rw [htet, this]
+                      · cases h
+                    · cases h
+                  · cases h
+                · cases h
+              · cases h
+        · cases h
+      · cases h
+    · cases h
+
+/-- the candidate loop either applies `ref_collapse_edge` for a candidate whose verdict is `collapse`, or leaves the
+    grid as it was -/
+theorem removeGo_spec (g : Grid) (nd : Nodes α) (p : Params α) (n1 : Nat) (cands : List Nat)
+    (tr : List (Nat × Collapse.Verdict)) :
+    (∀ n0, (removeGo g nd p n1 cands tr).actual = some n0 →
+      n0 ∈ cands ∧ judge g nd p n0 n1 = .collapse ∧ (removeGo g nd p n1 cands tr).grid = (collapseEdge g n0 n1).2 ∧
+      (removeGo g nd p n1 cands tr).status = (collapseEdge g n0 n1).1) ∧
+    ((removeGo g nd p n1 cands tr).actual = none → (removeGo g nd p n1 cands tr).grid = g) := by
+  induction cands generalizing tr with
+  | nil => simp [removeGo]
+  | cons c cs ih =>
+    unfold removeGo
+    split
+    · rename_i hj
+      refine ⟨?_, by simp⟩
+      intro n0 h0
+      simp only [Option.some.injEq] at h0
+      subst h0
+      exact ⟨List.mem_cons_self, hj, rfl, rfl⟩
+    · exact ⟨by simp, by simp⟩
+    · obtain ⟨a, b⟩ := ih (tr ++ [(c, judge g nd p c n1)])
+      refine ⟨fun n0 h0 => ?_, fun h0 => b h0⟩
+      obtain ⟨hm, rest⟩ := a n0 h0
+      exact ⟨List.mem_cons_of_mem _ hm, rest⟩
+
+/-- **toRemoveNode1_applies_guarded**: if `ref_collapse_to_remove_node1` reports `*actual_node0 = node0` (by the
+    substitution path), every guard of the chain accepted `(node0, node1)` and the resulting grid is
+    `ref_collapse_edge(node0, node1)` of the input; if it reports `REF_EMPTY`, the cells are those of the input
+    (a rejected attempt leaves the mesh as it was; the cavity fall-back is a separate operator, `Props/C01`). -/
+theorem toRemoveNode1_applies_guarded (lt : α → α → Bool) (g : Grid) (nd : Nodes α) (p : Params α) (n1 : Nat) :
+    (∀ n0, (toRemoveNode1 lt g nd p n1).actual = some n0 →
+      judge g nd p n0 n1 = .collapse ∧ (toRemoveNode1 lt g nd p n1).grid = (collapseEdge g n0 n1).2) ∧
+    ((toRemoveNode1 lt g nd p n1).actual = none → (toRemoveNode1 lt g nd p n1).grid = g) := by
+  unfold toRemoveNode1
+  simp only
+  split
+  · simp
+  · rename_i cand _
+    refine ⟨fun n0 h0 => ?_, fun h0 => ?_⟩
+    · obtain ⟨_, hj, hg, _⟩ := (removeGo_spec g nd p n1 _ []).1 n0 h0
+      exact ⟨hj, hg⟩
+    · exact (removeGo_spec g nd p n1 _ []).2 h0
+
+end Driver
+
+/-! ### bridge to `Props/C01` and non-vacuity -/
+
+/-- the `Mesh3` of `Model/Cavity.lean` (the vocabulary of `Valid3` / `valid3Orient`) of a `Guards.Grid` -/
+def toMesh3 (g : Grid) : Mesh3 Int :=
+  ⟨[], g.tet.map tetOf, g.tri.map fun c => ⟨(c.nd 0 : Int), (c.nd 1 : Int), (c.nd 2 : Int), c.id⟩⟩
+
+/-- the combinatorial orientation clause of `Props/C01` (signed multiplicity of every unordered face is zero: two
+    tets seeing it from opposite sides, or one tet and one boundary tri oriented like the tet face) gives
+    `Conforming` — the "closed / half-open star" hypothesis in executable form -/
+theorem conforming_of_orient (g : Grid) (h : valid3Orient (toMesh3 g) = true) : Conforming g := by
+  intro G _ φ hφ _
+  have := signedConforming_of_orient hφ (toMesh3 g) h
+  unfold gridBd
+  have e1 : faceSum φ (toMesh3 g).tetFaceList = (g.tet.map (cellBd φ)).sum := by
+    unfold Mesh3.tetFaceList toMesh3 faceSum cellBd
+    simp only
+    induction g.tet with
+    | nil => simp
+    | cons t r ih =>
+      simp only [List.map_cons, List.flatMap_cons, List.map_append, List.sum_append, List.sum_cons, ih, faceSum]
+  have e2 : faceSum φ (toMesh3 g).triFaceList = (g.tri.map (triVal φ)).sum := by
+    unfold Mesh3.triFaceList toMesh3 faceSum triVal
+    simp only [List.map_map]
+    rfl
+  rw [← e1, ← e2]; exact this
+
+instance (g : Grid) : Decidable (WF g) :=
+  decidable_of_iff ((∀ c ∈ g.tet, c.nodes.length = 4) ∧ (∀ c ∈ g.tri, c.nodes.length = 3))
+    ⟨fun h => ⟨h.1, h.2⟩, fun h => ⟨h.tet, h.tri⟩⟩
+
+/-- an interior vertex star of 8 tets: centre 6, link = octahedron 0:+x 1:-x 2:+y 3:-y 4:+z 5:-z, closed by the 8
+    boundary triangles of the link -/
+def exStar : Grid :=
+  { tet := [⟨[6, 0, 2, 4], 0⟩, ⟨[6, 2, 1, 4], 0⟩, ⟨[6, 3, 0, 4], 0⟩, ⟨[6, 1, 3, 4], 0⟩,
+            ⟨[6, 2, 0, 5], 0⟩, ⟨[6, 1, 2, 5], 0⟩, ⟨[6, 0, 3, 5], 0⟩, ⟨[6, 3, 1, 5], 0⟩],
+    tri := [⟨[0, 4, 2], 1⟩, ⟨[2, 4, 1], 1⟩, ⟨[3, 4, 0], 1⟩, ⟨[1, 4, 3], 1⟩,
+            ⟨[2, 5, 0], 1⟩, ⟨[1, 5, 2], 1⟩, ⟨[0, 5, 3], 1⟩, ⟨[3, 5, 1], 1⟩] }
+
+/-- hypotheses of `collapse_conforming` / `collapse_signedConforming` / `collapse_volume_interior` /
+    `collapse_manifold_no_duplicate` / `collapse_removed_unreferenced` on the 8-tet star, collapsing the interior
+    vertex 6 onto the link vertex 0: well formed, conforming (orientation clause), node1 on no tri, the manifold guard
+    allows, the kernel succeeds and leaves the 4 tets of the far side coned from vertex 0 — again conforming -/
+example : WF exStar ∧ valid3Orient (toMesh3 exStar) = true ∧ (∀ c ∈ exStar.tri, 6 ∉ c.nodes) ∧
+    collapseEdgeManifold exStar 0 6 = (.ok, true) ∧ (collapseEdge exStar 0 6).1 = .ok ∧
+    (collapseEdge exStar 0 6).2.tet = [⟨[0, 2, 1, 4], 0⟩, ⟨[0, 1, 3, 4], 0⟩, ⟨[0, 1, 2, 5], 0⟩, ⟨[0, 3, 1, 5], 0⟩] ∧
+    valid3Orient (toMesh3 (collapseEdge exStar 0 6).2) = true := by
+  refine ⟨by decide, by decide, by decide, by decide, by decide, by decide, by decide⟩
+
+example : Conforming exStar ∧ Conforming (collapseEdge exStar 0 6).2 :=
+  ⟨conforming_of_orient _ (by decide),
+   collapse_signedConforming exStar 0 6 (by decide) (by decide) (by decide) (conforming_of_orient _ (by decide))⟩
+
+/-- the manifold guard is not vacuous: with the tet (0,1,2,4) already present the collapse 6 → 0 would create it a
+    second time and is refused; the collapse of 0 onto 6 (node0 = 6) would leave tri (6,4,2) and others doubled on
+    the boundary and is allowed only topologically (the geometry guard refuses it, vertex 0 lies on a patch) -/
+example : collapseEdgeManifold { exStar with tet := exStar.tet ++ [⟨[1, 0, 2, 4], 0⟩] } 0 6 = (.ok, false) ∧
+    collapseEdgeGeometry exStar false false 6 0 = (.ok, false) ∧
+    collapseEdgeGeometry exStar false false 0 6 = (.ok, true) := by
+  refine ⟨by decide, by decide, by decide⟩
+
+/-- a boundary vertex: the upper half of the star (4 tets), vertex 6 on the bottom patch (id 2) together with
+    0,1,2,3; collapsing 6 onto 0 along the boundary: geometry and manifold guards allow, the result is conforming,
+    both bottom triangles with the edge (0,6) are removed; a ghost in the star makes `local_cell` refuse -/
+def exHalf : Grid :=
+  { tet := [⟨[6, 0, 2, 4], 0⟩, ⟨[6, 2, 1, 4], 0⟩, ⟨[6, 3, 0, 4], 0⟩, ⟨[6, 1, 3, 4], 0⟩],
+    tri := [⟨[0, 4, 2], 1⟩, ⟨[2, 4, 1], 1⟩, ⟨[3, 4, 0], 1⟩, ⟨[1, 4, 3], 1⟩,
+            ⟨[6, 0, 2], 2⟩, ⟨[6, 2, 1], 2⟩, ⟨[6, 3, 0], 2⟩, ⟨[6, 1, 3], 2⟩] }
+
+example : WF exHalf ∧ valid3Orient (toMesh3 exHalf) = true ∧
+    collapseEdgeGeometry exHalf false false 0 6 = (.ok, true) ∧ collapseEdgeManifold exHalf 0 6 = (.ok, true) ∧
+    (collapseEdge exHalf 0 6).2.tri.length = 6 ∧ (collapseEdge exHalf 0 6).2.tet.length = 2 ∧
+    valid3Orient (toMesh3 (collapseEdge exHalf 0 6).2) = true ∧
+    collapseEdgeLocalCell exHalf [true, true, true, true, true, true, true] 0 6 = true ∧
+    collapseEdgeLocalCell exHalf [true, true, true, false, true, true, true] 0 6 = false := by
+  refine ⟨by decide, by decide, by decide, by decide, by decide, by decide, by decide, by decide, by decide⟩
+
 end Refine.Props.C13Collapse
